@@ -186,6 +186,11 @@ def run(ctx):
                     src, pos, node = norm(it.args[0]), norm(lp.target.elts[0]), norm(lp.target.elts[1])
                 elif isinstance(it, ast.Call) and norm(it.func) == "zip" and len(it.args) == 2 and isinstance(lp.target, ast.Tuple):
                     src, node, partner = norm(it.args[0]), norm(lp.target.elts[0]), (norm(lp.target.elts[1]), norm(it.args[1]))
+                elif isinstance(it, ast.Call) and norm(it.func) == "range" and len(it.args) == 1 and isinstance(it.args[0], ast.Call) and norm(it.args[0].func) == "len" and it.args[0].args and isinstance(lp.target, ast.Name):
+                    # a loop over POSITIONS: `for idx in range(len(self.non_isolates)): i = self.non_isolates[idx]; X_pred[i, y_pred[idx]] = 1`
+                    src, pos = norm(it.args[0].args[0]), lp.target.id
+                    rowi = ak.resolve(row) if isinstance(row, ast.Name) else row
+                    node = norm(row) if norm(rowi) == f"{src}[{pos}]" else None
                 else:
                     src, node = norm(it), norm(lp.target)
                     # a manual position counter: initialised to 0 before the loop, advanced by one per iteration
@@ -199,7 +204,7 @@ def run(ctx):
                 col_ok = (pos is not None and col_txt == f"y_pred[{pos}]") or (partner is not None and col_txt == partner[0] and partner[1] == "y_pred")
                 if row_ok and col_ok:
                     st_ = "ok"
-                elif src in ("self.isolates", "range(self.N)") or (col_txt == f"y_pred[{node}]" and node is not None) or (pos is not None and norm(row) == pos):
+                elif src in ("self.isolates", "range(self.N)") or (col_txt == f"y_pred[{node}]" and node is not None and norm(row) == node) or (pos is not None and norm(row) == pos):
                     # rows of the wrong population, or the label looked up by the ROW index instead of the position among the
                     # non-isolated nodes
                     st_ = "violation"
